@@ -40,6 +40,7 @@ pub fn cells(tier: Tier) -> Vec<CellPlan> {
     add(cells::three_comps("C02", 1), 1, 2, 2, 2, 1.0);
     add(cells::three_comps("C02", 2), 1, 1, 2, 2, 1.0);
     add(cells::refused_value("C02"), 1, 2, 3, 4, 1.0);
+    add(cells::pool_reuse("C02"), 1, 1, 3, 4, 1.0);
     let mut r = cells::reinsert("C02");
     r.env = Env::full();
     add(r, 2, 3, 3, 4, 2.0);
